@@ -26,21 +26,6 @@ Definition mem_linearizable_with_enforcer_stmt : Prop :=
     run (init_sys cap (Some max) [] enf0 ops) sched = Fin s ->
     snd (seq_run true cap [] (map lop (s_log s))) = map lres (s_log s).
 
-Definition flop (e : flogent) : op := snd (fst e).
-Definition flres (e : flogent) : res := snd e.
-(** Ids are compared up to renaming in the real store; in the model both sides use the same counter
-    only when no id is skipped, so the statement is about results other than [RId]. *)
-Definition res_shape (r : res) : res := match r with RId _ => RId 0 | _ => r end.
-
-Definition file_no_fail_stmt : Prop :=
-  forall g ops sched s t,
-    frun (finit g ops) sched = FFin s -> nth_error (f_thr s) t <> Some (FDone RFail).
-
-Definition file_linearizable_stmt : Prop :=
-  forall g ops sched s,
-    frun (finit g ops) sched = FFin s ->
-    map res_shape (snd (seq_run false 0 [] (map flop (f_log s)))) = map res_shape (map flres (f_log s)).
-
 Definition freach_like (s0 s' : fsys) : Prop := exists sched', frun s0 sched' = FFin s'.
 
 (** A mailbox that holds a message during the whole walk is visited exactly once. *)
